@@ -34,7 +34,15 @@ def gen_doc(rnd):
 
 
 def gen_query(rnd):
-    k = rnd.choice(["where", "select", "select2", "having", "cte", "derived", "subq", "union", "insubq", "exists", "where+select"])
+    k = rnd.choice(["where", "select", "select2", "having", "cte", "derived", "subq", "union", "insubq", "exists", "where+select",
+                    "join-on", "join-on"])
+    if k == "join-on":
+        # a user function as a boolean conjunct of a non-equi ON: evaluated once per pair of key groups by the nested loop
+        sp = rnd.choice(["JOIN", "LEFT JOIN", "RIGHT JOIN", "PARALLEL JOIN", "PARALLEL LEFT JOIN", "STRAIGHT_JOIN", "HASH_JOIN"])
+        on = ["and", ["cmp", rnd.choice(["le", "ge", "ne", "lt"]), col("x", "a"), col("y", "m")], F(["bool", True])]
+        if rnd.random() < 0.3:
+            on = ["or", ["cmp", "eq", col("x", "a"), col("y", "m")], F(["bool", True])]
+        return k, select([["star"]], ["join", join_type(sp), table("t", "x"), table("u", "y"), on])
     if k == "where":
         return k, select([item(col("id"))], table("t"), wh=["cmp", "ge", F(uid(1)), num(0)])
     if k == "select":
@@ -98,7 +106,10 @@ def explore(chk, rnd, tier):
         if g.get("r") != "ok":
             chk.add_violation("fault-free-run-failed", {"sql": c["sql"], "doc": c["doc"], "impl": g})
             return
-        if l.get("r") == "ok" and canon(dec_val(l["v"])) != canon(dec_val(g["v"])):
+        from ..common import as_multiset
+        same = (as_multiset(dec_val(l["v"])) == as_multiset(dec_val(g["v"]))) if (l.get("r") == "ok" and c["kind"] == "join-on") else \
+            (l.get("r") != "ok" or canon(dec_val(l["v"])) == canon(dec_val(g["v"])))
+        if not same:
             chk.add_violation("model-vs-impl-fault-free", {"sql": c["sql"], "doc": c["doc"], "impl": g, "model": l})
             return
         log = [x[1] for x in dec_val(g.get("callLog", [])) if x[0] == "fail"]
@@ -154,7 +165,8 @@ def explore(chk, rnd, tier):
         if rs[1].get("r") != "ok" or canon(dec_val(rs[1]["v"])) != canon(dec_val(p["v"])) or o.get("docChanged"):
             chk.add_violation("not-usable-after-failure", {"seq": s, "after_failure": rs[1], "pristine": p, "docChanged": o.get("docChanged")})
             return
-        if rs[2].get("r") != "ok" or canon(dec_val(rs[2]["v"])) != canon(dec_val(b["v"])):
+        from ..common import as_multiset
+        if rs[2].get("r") != "ok" or as_multiset(dec_val(rs[2]["v"])) != as_multiset(dec_val(b["v"])):
             chk.add_violation("failed-query-not-repeatable", {"seq": s, "again": rs[2], "first": b})
             return
     chk.cov["evaluations"] = len(cases) + len(reqs) + len(seqs)
